@@ -52,8 +52,9 @@ def acc_read(ctx, acc, what='both'):
 @op('pos_image')
 def pos_image(ctx, shape, spacing, seed, optics=None, name=None, lo=0.5,
               hi=2.0, zeros=None, plane=None, scale=1.0, noise_sd=None,
-              channels=None):
-    """Positive random image; optional dead pixels and an added plane."""
+              channels=None, dtype=None):
+    """Positive random image; optional dead pixels and an added plane.
+    ``dtype``: camera-like integer counts (or float32) instead of float64."""
     from holopy.core.metadata import data_grid
     rs = np.random.RandomState(seed)
     shp = list(shape)
@@ -68,8 +69,13 @@ def pos_image(ctx, shape, spacing, seed, optics=None, name=None, lo=0.5,
                              indexing='ij')
         pl = a + bx * ii + by * jj
         arr = arr + (pl if not channels else pl[..., None])
+    if dtype is not None and np.dtype(dtype).kind in 'iu':
+        top = min(np.iinfo(dtype).max, 4095)
+        arr = rs.randint(1, top + 1, shp).astype(dtype)
+    elif dtype is not None:
+        arr = arr.astype(dtype)
     for z in zeros or []:
-        arr[z[0], z[1]] = 0.0
+        arr[z[0], z[1]] = 0
     kw = optics_kwargs(ctx, optics)
     if noise_sd is not None:
         kw['noise_sd'] = noise_sd
